@@ -139,6 +139,40 @@ def observe (sw, raw, in_port):
   return out, pins
 
 
+def readings (m, f):
+  """
+  The verdicts of every defensible reading of the specification for match m
+  and frame fields f; a case is judged only when they all agree.  Besides the
+  two readings of 'prerequisites are met', an ARP frame whose opcode does not
+  fit in eight bits has three: the low eight bits with the addresses (the
+  match structure's comment), protocol 0 without addresses (the reference
+  switch) and no network-layer fields at all.
+  """
+  r = [OM.matches(m, f), OM.matches_frame_based(m, f)]
+  if f.get("_arp_op", 0) > 255:
+    g = dict(f, nw_proto=0, nw_src=0, nw_dst=0)
+    r += [OM.matches(m, g), OM.matches_frame_based(m, g)]
+    wc = m["wildcards"]
+    for applies, base in ((OM.applicable(m)[1], r[0]), (True, r[1])):
+      constrains = applies and (not wc & OM.FW_NW_PROTO
+                                or OM.nw_bits(wc, OM.FW_NW_SRC_SHIFT) > 0
+                                or OM.nw_bits(wc, OM.FW_NW_DST_SHIFT) > 0)
+      r.append(base and not constrains)
+  return r
+
+
+def still_processed (sw, raw, in_port, rep, fire):
+  """An unjudged frame must still be processed without an exception."""
+  rep.count("ambiguous_not_judged")
+  try:
+    observe(sw, raw, in_port)
+    rep.count("unjudged_frames_still_processed")
+    return True
+  except Exception:
+    fire("frame processing raises", traceback.format_exc()[-700:])
+    return False
+
+
 def run_single (case, rep):
   sw = get_switch()
   m = case["match"]; raw = case["frame"]; in_port = case["in_port"]
@@ -150,9 +184,10 @@ def run_single (case, rep):
     fire("flow_mod rejected", "switch answered %s" % err[:40].hex()); return
   f = OM.extract(raw, in_port)
   expect = OM.matches(m, f)
-  if OM.matches_frame_based(m, f) != expect:
-    # the two readings of "prerequisites are met" disagree: not judged
-    rep.count("ambiguous_not_judged")
+  if f.get("_arp_op", 0) > 255: rep.count("arp_frames_with_wide_opcode")
+  if len(set(readings(m, f))) != 1:
+    # the readings of the specification disagree: not judged
+    still_processed(sw, raw, in_port, rep, fire)
     return False
   try:
     out, pins = observe(sw, raw, in_port)
@@ -237,9 +272,10 @@ def run_table (case, rep):
     f = OM.extract(raw, in_port)
     matching = [i for i, e in enumerate(entries) if i not in removed
                 and OM.matches(e["match"], f)]
-    if matching != [i for i, e in enumerate(entries) if i not in removed
-                    and OM.matches_frame_based(e["match"], f)]:
-      rep.count("ambiguous_not_judged")
+    if f.get("_arp_op", 0) > 255: rep.count("arp_frames_with_wide_opcode")
+    if [i for i, e in enumerate(entries) if i not in removed
+        and len(set(readings(e["match"], f))) != 1]:
+      if not still_processed(sw, raw, in_port, rep, fire): return
       continue
     exact = [i for i in matching if OM.is_exact(entries[i]["match"])]
     # entries whose only wildcard bits belong to fields that cannot apply to
